@@ -147,6 +147,17 @@ def _selection(ctx, rep, cm):
         ok_ = len(rets) == 1 and isinstance(rets[0], ast.Compare) and len(rets[0].ops) == 1 \
             and isinstance(rets[0].ops[0], ast.Lt) and norm(rets[0].left) == a0 + ".score" \
             and norm(rets[0].comparators[0]) == b0 + ".score"
+        if not ok_ and len(rets) == 1:
+            mirrored = isinstance(rets[0], ast.Compare) and len(rets[0].ops) == 1 \
+                and isinstance(rets[0].ops[0], ast.Gt) and norm(rets[0].left) == b0 + ".score" \
+                and norm(rets[0].comparators[0]) == a0 + ".score"
+            if mirrored:
+                return True, ""
+            read = {n_.attr for n_ in ast.walk(rets[0]) if isinstance(n_, ast.Attribute)
+                    and isinstance(n_.value, ast.Name) and n_.value.id in (a0, b0)}
+            if read <= {"score"}:
+                # only the scores are read, in a form this clause does not evaluate: no verdict
+                return None, ""
         return ok_, "" if ok_ else "no key function: the order is CTParse.__lt__, which compares {}".format(
             norm(rets[0])[:80] if rets else "?")
     key_detail = [""]
@@ -170,7 +181,11 @@ def _selection(ctx, rep, cm):
         elif term[0] == "item" and isinstance(term[1], tuple) and term[1] and term[1][0] == "sorted":
             srt = term[1]
             rev = is_true(srt[3])
-            kq = _key_is_score(srt[2], cm)
+            if srt[2] is None:
+                # key-less sort: the order is the element class's own __lt__
+                kq, key_detail[0] = ordering_is_score()
+            else:
+                kq = _key_is_score(srt[2], cm)
             if kq is None:
                 key_unknown.append(norm(srt[2]) if isinstance(srt[2], ast.AST) else str(srt[2]))
             ok = None if kq is None else (kq and ((term[2] == "-1" and not rev) or (term[2] == "0" and rev)))
@@ -179,7 +194,11 @@ def _selection(ctx, rep, cm):
                 isinstance(term[1][1], tuple) and term[1][1] and term[1][1][0] == "sorted":
             srt = term[1][1]
             rev = is_true(srt[3])
-            kq = _key_is_score(srt[2], cm)
+            if srt[2] is None:
+                # key-less sort: the order is the element class's own __lt__
+                kq, key_detail[0] = ordering_is_score()
+            else:
+                kq = _key_is_score(srt[2], cm)
             if kq is None:
                 key_unknown.append(norm(srt[2]) if isinstance(srt[2], ast.AST) else str(srt[2]))
             ok = None if kq is None else (kq and ((term[2] == "0" and not rev) or (term[2] == "-1" and rev)))
